@@ -23,9 +23,9 @@ DESCR = {
  'C03': ('G (differential)', 'the same texts x all 2^(n-1) chunk compositions x 2 push protocols, stream buffer sizes 1..n+1, cursors, read_to, staj iterators; binary: C07 byte spaces x 23 deliveries; CSV: every string <= 6 chars over 7 characters x 6 option sets x every delivery'),
  'C04': ('V', 'BigNat oracle; Trace_C04 validates bigint arithmetic via identities, conversions digit for digit, literal classes, round-half-even doubles, double print/parse round trips incl. every binary64 exponent x edge significands'),
  'C05': ('G + V', 'ApiOutcome protocol; inputs of all other generators + truncations / substitutions through every decoder / compiler entry point, a CBOR tag family (typed / multi-dimensional arrays, bignums, decimal fractions with boundary arguments), and values x option sets through 12 encoder entry points, under ASan+UBSan+LSan with a CPU-time watchdog (non-termination); sampled outcome traces validated by Trace_C05'),
- 'C06': ('V', 'BinModel universe x 4 formats x routes; Trace_C06: the reference decoder reads the output completely to the documented image and the library reads it back; stringref family; long-length family (BinHeads: header forms at 2^8 / 2^15 / 2^16)'),
+ 'C06': ('V', 'BinModel universe x 4 formats x routes; Trace_C06: the reference decoder reads the output completely to the documented image and the library reads it back; stringref family; long-length family (BinHeads: header forms at 2^8 / 2^15 / 2^16, Trace_C06big); semantic-tag family (BinTags / Trace_C06tags: bignum, decimal fraction, bigfloat, epoch tags, base-N hints x 4 formats, documented image per format)'),
  'C07': ('G', 'Cbor / Msgpack / Ubjson / Bson reference decoders: every byte string with 2 exhaustive leading bytes + representative later bytes, token sequences, length-boundary representatives, long-length header forms (exact / short / bad length field); verdict and value predicted'),
- 'C08': ('V', 'Events PDA: every complete event sequence <= MaxEv x 5 encoders (declared lengths respected / violated); Trace_C08 re-decodes the output with the reference decoders / JsonText; transcoding of all accepted C07 inputs'),
+ 'C08': ('V', 'Events PDA: every complete event sequence <= MaxEv x 5 encoders (declared lengths respected / violated); Trace_C08 re-decodes the output with the reference decoders / JsonText; transcoding of all accepted C07 inputs; tagged-event family (Trace_C08tags: every scalar event x semantic tag x 5 encoders, output must be well-formed in the target format or an error reported)'),
  'C09': ('G per transition + V', 'Container: every edge reachable within MaxHist operations (VIEW + ACTION_CONSTRAINT), hinted overloads at every hint position, json and ojson; ValueLaws over 54 x 54 descriptors (compare is a total order consistent with ==, hash, swap)'),
  'C10': ('G', 'Limits: 20 opening paths x limits x depths around the limit; encoders fed by events and through dump / encode_X, also after closed siblings; UBJSON max_items; claimed lengths vs an allocation meter for json and typed decode; deep values on a 1 MiB stack; sibling families'),
  'C11': ('G', 'JsonSchema validator (validated against the official suite and python-jsonschema on the whole space): grammar-built schemas per dialect incl. annotation scoping and dependency maps x steered instances'),
@@ -34,7 +34,7 @@ DESCR = {
  'C14': ('G', 'JsonPointer: all pointer strings <= n over 7 chars; (doc, tokens, op, create_if_missing); flatten / unflatten'),
  'C15': ('G + model + V', 'JsonPatch: every op sequence <= MaxOps extended while it succeeds (failure at every position); MC_C15impl refinement of the undo-log loop; diff law'),
  'C16': ('G + V', 'MergePatch: all (target, patch) pairs of the depth-2 universe; from_diff traces validated by Trace_C16'),
- 'C17': ('G', 'Reflect: 43 types x values (4 formats, 3 routes) and x fault-derived documents (verdict predicted)'),
+ 'C17': ('G', 'Reflect: 80 types (every traits macro flavour, std containers, tuple / pair / array / bitset / variant / optional / smart pointers / chrono, 64-bit and floating kinds) x values (4 formats, 3 routes) and x fault-derived documents (verdict predicted)'),
  'C18': ('G + V', 'Csv (RFC 4180 + jsoncons options): options x tables; TOON: round-trip law over trees, strings / keys in every position, and primitives (null, booleans, integers, decimals) in every position'),
  'C19': ('V', 'AllocLedger: fork per (scenario, n): the n-th allocation fails; Trace_C19 requires ledger balance, no double free, size-matched deallocation, strong / basic guarantee per scenario'),
  'C20': ('model + V', 'SharedReaders model-checked; TSan harness with TLC-generated thread / stream / skew assignments over built-in operations, a curated artefact pool (every format, every JSONPath / JMESPath built-in, all drafts) and a pool sampled from the C11 / C12 cases; Trace_C20'),
